@@ -32,7 +32,8 @@ import sys
 
 MODULE_FUNCS = ["quote_xml_aux", "quote_xml", "quote_attrib"]
 METHODS = ["gds_format_string", "gds_parse_string", "gds_format_integer", "gds_parse_integer", "gds_format_boolean",
-           "gds_parse_boolean"]
+           "gds_parse_boolean", "gds_format_float", "gds_format_double"]
+NONFINITE = {"inf": "INF", "-inf": "-INF", "nan": "NaN"}
 CDATA_REGEX = r"<!\[CDATA\[.*?\]\]>"
 
 # signature of each translated function: (parameter kept, its Lean type, result type, Option-valued?)
@@ -46,6 +47,9 @@ SIG = {
     "gds_parse_integer": ("input_data", "Str", "Int", True),
     "gds_format_boolean": ("input_data", "Bool", "Str", False),
     "gds_parse_boolean": ("input_data", "Str", "Bool", True),
+    # floats travel as what CPython's two formatting operations give for the value (Py.FloatLex: trusted, sampled)
+    "gds_format_float": ("input_data", "Py.FloatLex", "Str", False),
+    "gds_format_double": ("input_data", "Py.FloatLex", "Str", False),
 }
 IGNORED_PARAMS = {"self", "node", "input_name"}
 
@@ -175,6 +179,11 @@ class Tr:
                 return "(Py.fmtD %s)" % self.expr(r.args[0])
             if f == "%s" and self.typ(r) == "Bool":
                 return "(Py.strOfBool %s)" % self.expr(r)
+            if f == "%s" and self.typ(r) == "Py.FloatLex" and isinstance(r, ast.Name):
+                return "%s.repr" % r.id
+            if (f == "%.15f" and isinstance(r, ast.Call) and getattr(r.func, "id", None) == "float" and len(r.args) == 1
+                    and not r.keywords and isinstance(r.args[0], ast.Name) and self.typ(r.args[0]) == "Py.FloatLex"):
+                return "%s.f15" % r.args[0].id
             if f.count("%") == 1 and f.count("%s") == 1 and self.typ(r) == "Str":
                 pre, post = f.split("%s")
                 return "(Py.wrap %s %s %s)" % (self.lit_list(pre), self.lit_list(post), self.expr(r))
@@ -199,6 +208,15 @@ class Tr:
                     return "(Py.replace1 %s %s %s)" % (lchar(e.args[0].value), lstr(e.args[1].value), self.expr(f.value))
                 if f.attr == "strip" and not e.args and not e.keywords:
                     return "(Py.strip %s)" % self.expr(f.value)
+                if (f.attr == "rstrip" and len(e.args) == 1 and not e.keywords and isinstance(e.args[0], ast.Constant)
+                        and isinstance(e.args[0].value, str) and len(e.args[0].value) == 1):
+                    return "(Py.rstrip1 %s %s)" % (lchar(e.args[0].value), self.expr(f.value))
+                if (f.attr == "get" and isinstance(f.value, ast.Dict) and len(e.args) == 2 and not e.keywords
+                        and all(isinstance(k, ast.Constant) and isinstance(k.value, str) for k in f.value.keys)
+                        and all(isinstance(v, ast.Constant) and isinstance(v.value, str) for v in f.value.values)):
+                    tbl = ", ".join("(%s, %s)" % (lstr(k.value), lstr(v.value)) for k, v in zip(f.value.keys, f.value.values))
+                    self.dicts = getattr(self, "dicts", []) + [dict((k.value, v.value) for k, v in zip(f.value.keys, f.value.values))]
+                    return "(Py.dictGet [%s] %s %s)" % (tbl, self.expr(e.args[0]), self.expr(e.args[1]))
                 if f.attr == "lower" and not e.args and not e.keywords:
                     return "(Py.lower %s)" % self.expr(f.value)
                 if (f.attr == "finditer" and isinstance(f.value, ast.Name) and f.value.id == "CDATA_pattern_"
@@ -229,6 +247,10 @@ class Tr:
         if isinstance(e, ast.UnaryOp) and isinstance(e.op, ast.Not) and isinstance(e.operand, ast.Name) \
                 and self.types.get(e.operand.id) == "Str":
             return "%s = []" % e.operand.id
+        if (isinstance(e, ast.Call) and isinstance(e.func, ast.Attribute) and e.func.attr == "endswith" and len(e.args) == 1
+                and not e.keywords and isinstance(e.args[0], ast.Constant) and isinstance(e.args[0].value, str)
+                and isinstance(e.func.value, ast.Name) and self.types.get(e.func.value.id) == "Str"):
+            return "Py.endswith %s %s = true" % (self.lit_list(e.args[0].value), e.func.value.id)
         return self.gap(e, "condition")
 
     # ---- statements
@@ -306,6 +328,13 @@ class Tr:
                 restb = self.block(rest, ind)
                 lines.append("if %s then %s else\n%s%s" % (self.cond(st.test), "pure %s" % v if self.opt else v, pad, restb))
                 return sep.join(lines)
+            if (isinstance(st, ast.If) and not st.orelse and len(set(self.assigned(st.body))) == 1
+                    and self.assigned(st.body)[0] in self.types and len(self.assigned(st.body)) == len(st.body)):
+                x = self.assigned(st.body)[0]
+                body = self.block(st.body, ind + 2, final=x)
+                lines.append("let %s := (if %s then %s else %s)" % (x, self.cond(st.test), body, x))
+                k += 1
+                continue
             if isinstance(st, ast.If) and st.orelse:
                 vs = sorted(set(self.assigned(st.body) + self.assigned(st.orelse)))
                 if len(vs) == 1:
@@ -404,6 +433,7 @@ def translate(repo):
     tree = ast.parse(open(path).read())
     fns, n_super = find_functions(tree)
     gaps, defs = [], []
+    shapes = {}
     if n_super != 1:
         gaps.append("nml.py: expected exactly one class GeneratedsSuper, found %d" % n_super)
     if not cdata_pattern_ok(tree):
@@ -422,16 +452,33 @@ def translate(repo):
         tr = Tr(name, {par: pty})
         body = tr.block(fn.body, 2)
         gaps += tr.gaps
+        if name in ("gds_format_float", "gds_format_double"):
+            ds = getattr(tr, "dicts", [])
+            if not ds:
+                shapes[name] = "python-spelling"          # inf / -inf / nan as CPython prints them
+            elif ds == [NONFINITE]:
+                shapes[name] = "xsd-spelling"             # INF / -INF / NaN
+            else:
+                shapes[name] = "other"
+                gaps.append("nml.py:%d %s: unexpected spelling table %r" % (fn.lineno, name, ds))
         head = "def %s (%s : %s) : %s :=%s" % (name, par, pty, ("Option %s" % rty) if opt else rty, " do" if opt else "")
         defs.append("/-- nml.py:%d -/\n%s\n  %s" % (fn.lineno, head, body))
+    if len(set(shapes.values())) > 1:
+        gaps.append("nml.py: gds_format_float and gds_format_double spell non-finite values differently: %r" % (shapes,))
+    xsd = bool(shapes) and all(v == "xsd-spelling" for v in shapes.values())
+    defs.append("/-- non-finite values are written INF / -INF / NaN (true) or as CPython prints them, inf / -inf / nan (false) -/\n"
+                "def nonfiniteXsd : Bool := %s" % ("true" if xsd else "false"))
     src = ("import NmlVerif.Model.XmlText\n"
            "/-! GENERATED by translators/py2lean_quote.py from neuroml/nml/nml.py — do not edit. -/\n"
            "namespace NmlVerif.Gen.Quote\nopen NmlVerif.XmlText\n\n%s\n\nend NmlVerif.Gen.Quote\n" % "\n\n".join(defs))
+    translate.shapes = shapes
     return src, gaps
 
 
-def regenerate(repo, lean_dir):
+def regenerate(repo, lean_dir, info=None):
     src, gaps = translate(repo)
+    if info is not None:
+        info["float_format_shape"] = dict(translate.shapes)
     out = os.path.join(lean_dir, "NmlVerif", "Gen", "Quote.lean")
     old = open(out).read() if os.path.exists(out) else None
     if old != src:
